@@ -663,6 +663,52 @@ def run_item(args):
     return out
 
 
+# ------------------------------------------------------------------ conformance of the compiled kernels (JIT on)
+WRITINGS = {"ints (unifying)": [[0, 1, 1, 0, 1, 1], [1, 1, 0, 1, 1, 0]], "ints (2 x unifying)": [[0, 2, 2, 0, 2, 2], [2, 2, 0, 2, 2, 0]],
+            "ints (induced measure)": [[0, 1, 1, 0, 0, 0], [1, 1, 0, 0, 0, 0]], "ints and floats mixed": [[0, 1.0, 1, 0, 1, 1], [1, 1, 0, 1.0, 1, 0]],
+            "floats (pseudo-distance)": [[0., 1., 1., 0., 1., 0.], [1., 1., 0., 1., 1., 1.]], "ints (custom)": [[0, 2, 1, 0, 2, 1], [1, 1, 0, 1, 1, 3]]}
+JIT_SHAPES = [((0, 1, 1), (2, 0, 1)), ((0, 1, -1), (1, -1, 0)), ((0, 0, 1), (-1, -1, -1), (1, 0, 2))]
+
+
+def jit_illformed(job, o):
+    names = {(type(x).__name__, x) for rk in job["rankings"] for b in rk for x in b}
+    for rk in o["consensus"]:
+        seen = [tuple(e) for b in rk for e in b]
+        if any(len(b) == 0 for b in rk) or len(seen) != len(set(seen)) or set(seen) != names:
+            return True
+    return len(o["consensus"]) != 1
+
+
+def jit_conformance(run, cfgs, judge, writings=None, shapes_=None):
+    """[trace validation, not the deciding step] the engines execute the kernels' Python source with numba's JIT off; the
+    compiled kernels additionally dispatch on argument dtypes (typed signatures).  Every configuration is therefore run once
+    per scheme *writing* (valid schemes written with Python ints, floats, or both) and dataset in ONE fresh process with the
+    JIT ON (vf/jitprobe.py); judge(job, outcome, base) returns a candidate payload or None.  Candidates are replayed like
+    any other (fresh process, JIT on)."""
+    import json, os, subprocess, sys
+    writings = writings or WRITINGS
+    jobs = []
+    for cfg in cfgs:
+        for wname, w in writings.items():
+            for i, lvs in enumerate(shapes_ or JIT_SHAPES):
+                names = [[1, 2, 3], ["b", "a", "c"]][(i + len(jobs)) % 2]
+                jobs.append({"config": cfg, "rankings": shapes.raw_json(lvs, names), "scheme_written": w, "scheme": w, "flag": True, "writing": wname,
+                             "choices": []})
+    env = dict(os.environ)
+    env.pop("NUMBA_DISABLE_JIT", None)
+    env["VF_REPLAY"] = "1"
+    r = subprocess.run([sys.executable, "-m", "vf.jitprobe"], input=json.dumps(jobs), capture_output=True, text=True, env=env, cwd=harness.VERIF, timeout=1500)
+    if r.returncode != 0:
+        raise harness.HarnessError("JIT conformance probe failed: " + (r.stderr or "")[-600:])
+    res = json.loads(r.stdout)
+    for job, o in zip(jobs, res):
+        STATS.validated += 1
+        c = judge(job, o, dict(job, signature={"site": job["config"], "class": "jit:" + job["writing"]}))
+        if c is not None:
+            run.candidate(c)
+    run.extra["jit_conformance_runs"] = len(jobs)
+
+
 # ------------------------------------------------------------------ item lists
 HEAVY = {"BioConsert", "BioConsert[Copeland]", "BioConsert[Borda]", "BioConsert[PickAPerm]", "BioConsert[KwikSort]", "BioConsert[Borda,Copeland]",
          "BioConsert[PickAPerm,Borda]",
